@@ -254,6 +254,14 @@ class GoFE:
         self._M = M
         return (obj, t['id']), bufstate(M, buf).r
 
+    def redecode(self, ctl, o, packet, data):
+        obj, tid = o
+        M = self._M
+        M.ctl = ctl
+        buf = self.newbuf(data)
+        self.run_method(M, tid, 'Decode', obj, buf)
+        return o, bufstate(M, buf).r
+
     def reencode(self, ctl, o, cks_registered=True):
         obj, tid = o
         M = self._M
